@@ -1,4 +1,6 @@
 """C14 - aligned allocation: alignedMalloc/alignedFree, aligned_allocator, AlignedVector.
+Tie A (arithmetic): coq/C14/gen/GenAlloc.v is REGENERATED on every run from the working tree (tools/cxx2coq + tools/c14gen:
+max_size(), the statements of allocate(), isAligned, ALIGN_PTR) and PropertiesGen.v proves it equal, in the machine reading, to Model.v.
 Tie B: hand-written Gallina model of the size_t arithmetic and of the allocator clients
 (coq/C14/Model.v; the external allocator is a Section variable with a contract), theorems
 in coq/C14/Properties.v.  Correspondence: the extracted model against three builds of
@@ -387,7 +389,18 @@ def run(ctx):
     gen_broken = sorted(n for n, ok in thm.items() if n.startswith("gen_") and not ok)
     ctx.cov["regenerated_obligations_broken"] = gen_broken
     if gen_broken:
-        ctx.log("regenerated (Tie A) obligations that no longer check: " + ", ".join(gen_broken))
+        # PropertiesGen.v stands or falls as one file; name the first lemma of ProofsGen.v that stopped checking
+        first = None
+        m = re.search(r'File "\./ProofsGen\.v", line (\d+)', getattr(ctx, "coq_log", ""))
+        if m:
+            try:
+                src = open(os.path.join(ctx.coqdir, "ProofsGen.v")).read().split("\n")[:int(m.group(1))]
+                names = re.findall(r"^\s*Lemma\s+(\w+)", "\n".join(src), re.M)
+                first = names[-1] if names else None
+            except OSError:
+                pass
+        ctx.cov["regenerated_first_failing_lemma"] = first
+        ctx.log("regenerated (Tie A) obligations no longer check; first failing lemma: %s" % first)
     model = ctx.extract(snippets=["conv_N.ml", "conv_Z.ml"])
     tbbflags = ["-DRKCOMMON_TASKING_TBB"]
     exes = ctx.cxx_many([
